@@ -189,9 +189,24 @@ func c06Step(st, in, out interface{}) (bool, interface{}) {
 			return true, s
 		}
 		return !can, s
+	case "ghostclaim":
+		// third reading of a registration that failed with 'process terminated' (see the
+		// transient readings below): the name is reserved for a moment ...
+		if s.owner[i.Name] != -1 {
+			return false, s
+		}
+		s.owner[i.Name] = -2
+		return true, s
+	case "ghostrelease":
+		// ... and given back when the registration is rolled back
+		if s.owner[i.Name] != -2 {
+			return false, s
+		}
+		s.owner[i.Name] = -1
+		return true, s
 	case "unregister":
 		if o.OK {
-			if s.owner[i.Name] == -1 {
+			if s.owner[i.Name] == -1 || s.owner[i.Name] == -2 {
 				return false, s
 			}
 			p := s.owner[i.Name]
@@ -210,7 +225,7 @@ func c06Step(st, in, out interface{}) (bool, interface{}) {
 		if o.Unknown {
 			return s.owner[i.Name] == -1, s
 		}
-		return s.owner[i.Name] == int8(o.Owner) && !s.dead[o.Owner], s
+		return o.Owner >= 0 && s.owner[i.Name] == int8(o.Owner) && !s.dead[o.Owner], s
 	case "regevent":
 		if o.Skip {
 			return true, s
@@ -606,8 +621,11 @@ func (c06) Run(e *simkit.Env, cc any) {
 	}
 	// A registration on behalf of a process that turns out to be terminated holds the name
 	// for a moment before it is rolled back (competing claims are refused as 'taken', an
-	// UnregisterName can even take it away). Such an operation is judged under both readings:
-	// as a plain failure, and as a success that the termination of the process then releases.
+	// UnregisterName can even take it away). Such an operation is judged under three readings:
+	// as a plain failure, as a success that the termination of the process then releases, and
+	// - when the process was gone before the name was reserved - as a reservation that is
+	// given back within the call (two steps inside its interval; a name that stays reserved
+	// is not explained by it).
 	var transient []int
 	for i, a := range hist {
 		ai, ao := a.Input.(c06In), a.Output.(c06Out)
@@ -651,18 +669,36 @@ func (c06) Run(e *simkit.Env, cc any) {
 			continue
 		}
 		res := porcupine.Illegal
-		for mask := 0; mask < 1<<len(transient) && res == porcupine.Illegal; mask++ {
+		nvar := 1
+		for range transient {
+			nvar *= 3
+		}
+		for mask := 0; mask < nvar && res == porcupine.Illegal; mask++ {
 			var variant []porcupine.Operation
 			for i, o := range hist {
 				if !keep[i] {
 					continue
 				}
-				for bi, idx := range transient {
-					if idx == i && mask&(1<<bi) != 0 {
-						out := o.Output.(c06Out)
-						out.OK = true
-						o.Output = out
+				reading, m := 0, mask
+				for _, idx := range transient {
+					if idx == i {
+						reading = m % 3
 					}
+					m /= 3
+				}
+				switch reading {
+				case 1:
+					out := o.Output.(c06Out)
+					out.OK = true
+					o.Output = out
+				case 2:
+					in := o.Input.(c06In)
+					claim, release := o, o
+					claim.Input = c06In{Op: "ghostclaim", Name: in.Name, Proc: in.Proc}
+					release.Input = c06In{Op: "ghostrelease", Name: in.Name, Proc: in.Proc}
+					variant = append(variant, claim)
+					o = release
+					e.Probe("transient-reservation-reading-tried")
 				}
 				variant = append(variant, o)
 			}
